@@ -33,7 +33,29 @@ pub enum DAct {
         #[serde(default)]
         defer: bool,
     },
-    Alive { p: u8 },
+    /// a life sign of participant p.  wire: as a datagram of its SPDP writer through the real MessageReceiver and one turn
+    /// of the event loop / Discovery (otherwise DiscoveryDB::participant_is_alive directly); explicit: the DATA names the
+    /// SPDP reader (unicast style) or ENTITYID_UNKNOWN (multicast style); same: the writer repeats its last sequence number
+    /// (a stateless SPDP writer announcing unchanged data) or uses the next one
+    Alive {
+        p: u8,
+        #[serde(default)]
+        wire: bool,
+        #[serde(default)]
+        explicit: bool,
+        #[serde(default)]
+        same: bool,
+    },
+    // ---- C06 on the event-loop plumbing (not part of Discovery.tla): the local writer serves a well-behaved reader while
+    // ---- another peer sends ACKNACKs of the hostile catalogue
+    Write,
+    Turn,
+    /// datagram(s) of a writer-side hostile class from a third participant
+    HostileAck { cls: String },
+    /// remote reader e acknowledges everything before `base`
+    Ack { e: u8, base: i64 },
+    /// the local writer must have registered that acknowledgment
+    CheckAck { e: u8, expected: i64 },
     Cleanup {
         #[serde(default)]
         defer: bool,
@@ -191,6 +213,8 @@ pub fn run_one(run_no: usize, spec: &DRunSpec, out: &mut Vec<Value>) -> Vec<Vec<
     let mut rig = if spec.late { DiscRig::new_late(&q, &q) } else { DiscRig::new(&q, &q) };
     rig.defer = true; // the driver decides when the event loop runs
     let mut waiting: std::collections::VecDeque<Value> = Default::default();
+    let mut spdp_sn: HashMap<u8, i64> = HashMap::new();
+    let mut ack_count = 0i32;
     out.push(json!({"ev":"Reset","run":run_no,"late":spec.late}));
     // an event whose notification is deferred: line (with the tables as they are now) waits for the event loop
     macro_rules! notified {
@@ -215,9 +239,22 @@ pub fn run_one(run_no: usize, spec: &DRunSpec, out: &mut Vec<Value>) -> Vec<Vec<
                 let _ = rig.spdp(prefix(*p), if *lease < 0 { None } else { Some(*lease) });
                 notified!(json!({"ev":"Spdp","p":p,"lease":lease}), *defer);
             }
-            DAct::Alive { p } => {
+            DAct::Alive { p, wire, explicit, same } => {
                 flush(&mut rig, &mut waiting, out);
-                rig.alive(prefix(*p));
+                if *wire {
+                    let sn = spdp_sn.entry(*p).or_insert(0i64);
+                    if !*same || *sn == 0 {
+                        *sn += 1;
+                    }
+                    let reader = if *explicit { [0, 1, 0, 0xc7] } else { [0, 0, 0, 0] };
+                    // PL_CDR_LE, nothing but the sentinel: the Reader does not look inside
+                    let payload = vec![0, 3, 0, 0, 1, 0, 0, 0];
+                    let dg = crate::wire::encode(&prefix(*p), &[crate::wire::Sub::Data { reader, writer: [0, 1, 0, 0xc2], sn: *sn, inline_qos: None, payload: Some(payload), key_flag: false }]);
+                    rig.receive(&dg);
+                    rig.turn();
+                } else {
+                    rig.alive(prefix(*p));
+                }
                 let t = observe_tables(&mut rig);
                 let m = observe_matching(&mut rig);
                 out.push(merge(merge(json!({"ev":"Alive","p":p}), t), m));
@@ -261,6 +298,35 @@ pub fn run_one(run_no: usize, spec: &DRunSpec, out: &mut Vec<Value>) -> Vec<Vec<
                 notified!(json!({"ev":"DisposeE","e":e}), *defer);
             }
             DAct::Flush => flush(&mut rig, &mut waiting, out),
+            DAct::Write => {
+                rig.write_sample();
+                out.push(json!({"ev":"Write"}));
+            }
+            DAct::Turn => {
+                let n = rig.turn();
+                out.push(json!({"ev":"Turn","n":n}));
+            }
+            DAct::HostileAck { cls } => {
+                let ctx = crate::hostile::Ctx { src_prefix: [0xAA; 12], writer_eid: rig.writer_eid, reader_eid: [0, 0, 9, 7], front: 3, count: 700 };
+                let dgs = crate::hostile::writer_datagrams(cls, &ctx);
+                for d in &dgs {
+                    rig.receive(d);
+                }
+                out.push(json!({"ev":"HostileAck","cls":cls,"n":dgs.len()}));
+            }
+            DAct::Ack { e, base } => {
+                let g = eguid(*e);
+                let mut pfx = [0u8; 12];
+                pfx.copy_from_slice(&g[0..12]);
+                ack_count += 1;
+                let dg = crate::wire::encode(&pfx, &[crate::wire::Sub::AckNack { reader: [g[12], g[13], g[14], g[15]], writer: rig.writer_eid, set: crate::wire::NumSet::empty(*base), count: ack_count, final_flag: true }]);
+                rig.receive(&dg);
+                out.push(json!({"ev":"Ack","e":e,"base":base}));
+            }
+            DAct::CheckAck { e, expected } => {
+                let (present, acked) = rig.writer_proxy_of(eguid(*e));
+                out.push(json!({"ev":"AckServed","e":e,"present":present,"acked":acked,"expected":expected}));
+            }
         }
     }
     flush(&mut rig, &mut waiting, out);
@@ -301,7 +367,7 @@ pub fn random_run(rng: &mut StdRng, n: usize) -> DRunSpec {
                 lease[p as usize] = if l < 0 { 60_000 } else { l };
             }
             20..=29 => {
-                acts.push(DAct::Alive { p });
+                acts.push(DAct::Alive { p, wire: rng.gen_bool(0.6), explicit: rng.gen_bool(0.5), same: rng.gen_bool(0.5) });
                 if known[p as usize] {
                     last[p as usize] = now;
                 }
@@ -353,8 +419,38 @@ pub fn random_run(rng: &mut StdRng, n: usize) -> DRunSpec {
     DRunSpec { acts, late }
 }
 
+/// C06: every writer-side hostile class (and bursts of them) between the writes and acknowledgments of a well-behaved pair
+pub fn hostile_runs(seed: u64, runs: usize) -> Vec<DRunSpec> {
+    let mut rng = StdRng::seed_from_u64(seed ^ 0xC06E);
+    let classes = crate::hostile::writer_classes();
+    (0..runs)
+        .map(|k| {
+            let cls = classes[k % classes.len()].to_string();
+            let mut acts = vec![DAct::Spdp { p: 1, lease: 100_550, defer: false }, DAct::Announce { e: 1, c: None, defer: false }, DAct::Write, DAct::Turn];
+            if rng.gen_bool(0.5) {
+                acts.push(DAct::Ack { e: 1, base: 1 });
+                acts.push(DAct::Turn);
+            }
+            acts.push(DAct::HostileAck { cls: cls.clone() });
+            if rng.gen_bool(0.3) {
+                acts.push(DAct::HostileAck { cls });
+            }
+            for _ in 0..rng.gen_range(0..3) {
+                acts.push(DAct::Turn);
+            }
+            acts.push(DAct::Write);
+            acts.push(DAct::Turn);
+            acts.push(DAct::Ack { e: 1, base: 3 });
+            acts.extend([DAct::Turn, DAct::Turn, DAct::Turn]);
+            acts.push(DAct::CheckAck { e: 1, expected: 3 });
+            DRunSpec { acts, late: false }
+        })
+        .collect()
+}
+
 pub fn main(mode: &str, opt: &HashMap<String, String>) -> i32 {
     match mode {
+        "hostile" => util::run_parallel(opt, hostile_runs(util::get(opt, "seed", 1u64), util::get(opt, "runs", 60)), run_one),
         "replay" => util::run_parallel(opt, util::read_jsonl::<DRunSpec>(&opt["in"]), run_one),
         "random" => {
             let mut rng = StdRng::seed_from_u64(util::get(opt, "seed", 1u64) ^ 0xC11);
